@@ -21,6 +21,10 @@ pub fn on_assignment(
         // A(1) = 42 where A is not an array (implicit arrays are not supported): not something that can be assigned to
         return Err(LintError::ArrayNotDefined.at_pos(pos));
     }
+    if let Expression::BuiltInFunctionCall(_, _) = &converted_left {
+        // LEN(A$) = 1 : the result of a built-in function is not something that can be assigned to
+        return Err(LintError::VariableRequired.at_pos(pos));
+    }
     Ok(Statement::assignment(converted_left, converted_right))
 }
 
